@@ -37,13 +37,21 @@ structure LStmts where
   eIns : List (WB ECol EField)
   eSel : List (RB ECol EField)
   eRemoveChecks : Bool
+  /-- `get(list_id, track_id, database_uuid)` -/
+  eSel3 : List (RB ECol EField)
+  /-- the per-row callback of `get_for_list` -/
+  eSelList : List (RB ECol EField)
+  /-- `remove`: `DELETE … WHERE col = ? AND …` — (column, index of the bound parameter: 0 = list_id, 1 = entity_id) -/
+  eRemoveWhere : List (ECol × Nat)
 
 def genLStmts : LStmts :=
   { pIns := Gen.Bindings.playlistInsert, pSel := Gen.Bindings.playlistSelect,
     pUpdSimple := Gen.Bindings.playlistUpdateSimple, pUpdFull := Gen.Bindings.playlistUpdateFull,
     pRemoveChecks := Gen.Bindings.playlistRemoveChecks,
     eIns := Gen.Bindings.entityInsert, eSel := Gen.Bindings.entitySelect,
-    eRemoveChecks := Gen.Bindings.entityRemoveChecks }
+    eRemoveChecks := Gen.Bindings.entityRemoveChecks,
+    eSel3 := Gen.Bindings.entitySelect3, eSelList := Gen.Bindings.entitySelectList,
+    eRemoveWhere := Gen.Bindings.entityRemoveWhere }
 
 structure LDb where
   pl : Rows PCol
@@ -118,21 +126,89 @@ def eGet (st : LStmts) (d : LDb) (l t : Int) : Res (Option (Row EField)) :=
     | .throw e => .throw e
     | .ub u => .ub u
 
-/-- `playlist_entity_table::remove(list_id, entity_id)` -/
-def eRemove (st : LStmts) (d : LDb) (l e : Int) : LDb × Res Unit :=
-  match d.pe.find? (fun x => x .listId == .int l && rowId .id x == e) with
-  | none => if st.eRemoveChecks then (d, .throw .invalid_argument) else (d, .ok ())
-  | some old => ({ d with pe := eDeleteRow d.pe old }, .ok ())
-
-/-- `DELETE FROM PlaylistEntity WHERE listId = ?`: row by row, under the trigger. -/
-def eClearRows (t : Rows ECol) (l : Int) : Rows ECol :=
-  (t.filter (fun x => x .listId == .int l)).foldl
+/-- `DELETE FROM PlaylistEntity WHERE <p>`: row by row (rowid order), under the trigger. -/
+def eDeleteWhere (t : Rows ECol) (p : Raw ECol → Bool) : Rows ECol :=
+  (t.filter p).foldl
     (fun acc old => match findRow .id acc (rowId .id old) with
       | some cur => eDeleteRow acc cur
       | none => acc) t
 
+/-- Does the row satisfy `c₁ = ?₁ AND c₂ = ?₂ …` with the placeholders bound to
+the function parameters `args` as the statement binds them? -/
+def whereMatches (w : List (ECol × Nat)) (args : List Int) (raw : Raw ECol) : Bool :=
+  w.all fun ck => match args[ck.2]? with
+    | some a => raw ck.1 == .int a
+    | none => false
+
+/-- `playlist_entity_table::remove(list_id, entity_id)`: the translated `DELETE`,
+then `rows_modified() == 0` is an error. -/
+def eRemove (st : LStmts) (d : LDb) (l e : Int) : LDb × Res Unit :=
+  if (d.pe.filter (whereMatches st.eRemoveWhere [l, e])).isEmpty then
+    (if st.eRemoveChecks then (d, .throw .invalid_argument) else (d, .ok ()))
+  else ({ d with pe := eDeleteWhere d.pe (whereMatches st.eRemoveWhere [l, e]) }, .ok ())
+
+/-- `DELETE FROM PlaylistEntity WHERE listId = ?`: row by row, under the trigger. -/
+def eClearRows (t : Rows ECol) (l : Int) : Rows ECol := eDeleteWhere t (fun x => x .listId == .int l)
+
 /-- `playlist_entity_table::clear` -/
 def eClear (d : LDb) (l : Int) : LDb := { d with pe := eClearRows d.pe l }
+
+/-- `playlist_entity_table::get(list_id, track_id, database_uuid)` -/
+def eGet3 (st : LStmts) (d : LDb) (l t : Int) (u : Bytes) : Res (Option (Row EField)) :=
+  match lastByUuid (d.pe.filter (fun x => x .listId == .int l && x .trackId == .int t && x .databaseUuid == .text u)) with
+  | none => .ok none
+  | some raw =>
+    match readRow raw st.eSel3 with
+    | .ok g => .ok (some g)
+    | .throw e => .throw e
+    | .ub ub => .ub ub
+
+/-- Run the per-row callback over the selected rows (the first failure ends the statement). -/
+def readRows (sel : List (RB ECol EField)) : List (Raw ECol) → Res (List (Row EField))
+  | [] => .ok []
+  | raw :: rest =>
+    match readRow raw sel with
+    | .ok g =>
+      match readRows sel rest with
+      | .ok gs => .ok (g :: gs)
+      | .throw e => .throw e
+      | .ub u => .ub u
+    | .throw e => .throw e
+    | .ub u => .ub u
+
+def entId (g : Row EField) : Int := match g .id with | .int i => i | _ => 0
+def entNext (g : Row EField) : Int := match g .next_entity_id with | .int i => i | _ => 0
+
+/-- `next_entity_id_map.find(key)`: the map was filled in row order with
+`map[next_entity_id] = row`, so the last row with that key is the one kept. -/
+def mapFind (rows : List (Row EField)) (key : Int) : Option (Row EField) :=
+  (rows.filter (fun g => entNext g == key)).getLast?
+
+/-- `do { id = curr->second.id; results.push_front(curr->second); curr = map.find(id); } while (curr != end)`
+(at most one step per stored row: ids are distinct). -/
+def walkBack (rows : List (Row EField)) : Nat → Row EField → List (Row EField) → List (Row EField)
+  | 0, g, acc => g :: acc
+  | n + 1, g, acc =>
+    match mapFind rows (entId g) with
+    | none => g :: acc
+    | some g' => walkBack rows n g' (g :: acc)
+
+/-- `playlist_entity_table::get_for_list`: rows of the list, re-ordered by walking
+the `next_entity_id` chain back from the entity with no next entity.  With rows
+but no such entity the code dereferences `end()` (the `assert` is compiled out). -/
+def eGetForList (st : LStmts) (d : LDb) (l : Int) : Res (List (Row EField)) :=
+  match readRows st.eSelList (d.pe.filter (fun x => x .listId == .int l)) with
+  | .throw e => .throw e
+  | .ub u => .ub u
+  | .ok [] => .ok []
+  | .ok rows =>
+    match mapFind rows 0 with
+    | none => .ub .oob_read
+    | some tail => .ok (walkBack rows rows.length tail [])
+
+/-- `playlist_entity_table::track_ids` -/
+def eTrackIds (st : LStmts) (d : LDb) (l : Int) : Res (List Int) :=
+  (eGetForList st d l).bind fun gs => .ok (gs.map fun g => match g .track_id with | .int i => i | _ => 0)
 
 /-! ## Playlist -/
 
@@ -408,8 +484,16 @@ def wtRowE (r : Row EField) : Prop := ∀ f, wtv f.ty (r f) = true
 def PField.writable : List PField := PField.all.filter (fun f => decide (f ≠ .id))
 def eNeed : List EField := [.list_id, .track_id, .database_uuid, .membership_reference]
 
-/-- Alignment of the list-table statements with the Spec (decidable). -/
-def alignedL (st : LStmts) : Bool :=
+/-- Alignment of the statements added in the second round: the three-key `get`,
+the `get_for_list` callback, and the WHERE clause of `remove`, which must name
+the PAIR (listId ← list_id, id ← entity_id). -/
+def alignedLext (st : LStmts) : Bool :=
+  alignedR eSpec (fun _ => true) st.eSel3
+  && alignedR eSpec (fun _ => true) st.eSelList
+  && decide (st.eRemoveWhere = [(.listId, 0), (.id, 1)])
+
+/-- Alignment of the playlist / entity row statements with the Spec (decidable). -/
+def alignedLcore (st : LStmts) : Bool :=
   decide (Gen.Bindings.playlistFields.map (·.1) = PField.all)
   && decide (Gen.Bindings.entityFields = EField.all.map (fun f => (f, f.ty)))
   && alignedW pSpec PField.writable [] st.pIns
@@ -419,6 +503,9 @@ def alignedL (st : LStmts) : Bool :=
   && alignedW eSpec eNeed [(.nextEntityId, .int 0)] st.eIns
   && alignedR eSpec (fun _ => true) st.eSel
   && st.pRemoveChecks && st.eRemoveChecks
+
+/-- Alignment of the list-table statements with the Spec (decidable). -/
+def alignedL (st : LStmts) : Bool := alignedLcore st && alignedLext st
 
 end Table
 end EngineModel
